@@ -19,21 +19,21 @@ ADDED = {
     'C01': 'every combination of operand layouts (0-d / 1-d / 2-d / transposed) = element-wise 0-d calls, repeat and reuse after in-place update, long arrays vs their slices, near-equal elements; integer operand modes (int64/int32, whole numbers up to 1e15); call-history cases in the other precision first',
     'C02': 'the same coordinates flagged unaligned; axis-aligned geometries; precision/call-history family; customised reported graphs',
     'C03': 'layout exploration incl. long vector arrays per operand; BFS over accessor / in-place-update / replace / copy histories on one data array (depth 3, thorough 4) judged against the geometry of the current coordinates',
-    'C04': 'layout exploration; mixed tilts inside one per-pixel incident-beam array incl. the refusal of the reflectometry variant; binned wavelength as fresh / transposed / permuted / sliced view',
+    'C04': 'layout exploration; mixed tilts inside one per-pixel incident-beam array incl. the refusal of the reflectometry variant; binned wavelength as fresh / transposed / permuted / sliced view; exact half turns of the lab frame (beam along -z, gravity along +y)',
     'C05': 'layout exploration incl. long arrays; history family; arrival times presented as kernel call, graph, dense point / bin-edge coordinate, event coordinate, outer bin edges of event data, and inside a Dataset (all must equal the kernel call, never infinite)',
     'C06': 'integer ns event stamps vs the same numbers as float64; permuted event buffers; early events between per-pixel t0s; int32 events; module state reset before every conversion and reference',
     'C07': 'layout exploration incl. gravity kernels; arrivals within a microsecond of t0 in every time unit; binned operand in every position x dtype; int32 operands must be accepted',
     'C08': 'layout exploration; wavelength dtype alphabet (float64/float32/int64/int32, dense/binned/graph); every pairing of length units for Q and UB with the split/reassemble unit check; a customised fetched graph may not change the next one',
-    'C09': 'second call with freshly built equal arguments; silent replay of histories; refusable inputs (arguments unchanged also when the call raises); border windows for fit_peaks; all graph factory starts',
+    'C09': 'second call with freshly built equal arguments; silent replay of histories; refusable inputs (arguments unchanged also when the call raises); border windows for fit_peaks; all graph factory starts; model calls with a 0-d and a length-1 abscissa',
     'C10': 'mixed dtype x unit frequency ratios (integer set points next to floats, per-minute next to Hz/kHz); twin disk from the same Variables after use; replaced frequency; integer angles',
     'C11': 'byte snapshots of every Frame / FrameSequence / Chopper re-verified after every operation; BFS over chop / propagate / inspect histories from a shared base (depth 3, thorough 4); 16 unit / dtype representations of each cascade against its all-metres version',
     'C12': 'pixel counts and chunks around 2^16; pre-existing longer file; histogram shapes with singleton axes; non-ASCII strings; masked pixel data',
-    'C13': 'sizes around 1 MiB per write; value x index dtype grid of the nine rows; values beyond float32; experiment objects reused after a first file; masked pixel data; run records in real files; non-ASCII strings',
+    'C13': 'sizes around 1 MiB per write; value x index dtype grid of the nine rows; values beyond float32; experiment objects reused after a first file; masked pixel data; run records in real files; non-ASCII strings; nearly constant next to exactly constant pixel rows',
     'C14': 'modify-after-write histories of every CIF object; intensity units and every text slot incl. non-ASCII; 14 representations of pairs / columns / containers (mappings, sequences, one-shot iterables)',
-    'C15': 'tables up to 65 536 rows; history after another coordinate dtype; coordinate sets x alignment flags for the refusal rule; target representations (str / Path / handle / StringIO x suffixes incl. compressed) with directory and byte checks',
+    'C15': 'tables up to 65 536 rows; history after another coordinate dtype; coordinate sets x alignment flags for the refusal rule; target representations (str / Path / handle / StringIO x suffixes incl. compressed) with directory and byte checks; headers whose first line is already commented and whose later lines are not',
     'C16': 'every ordering class of the abscissa (value at a point independent of the other points); integer abscissae; BFS over use / rename / copy histories of a model (11^3, thorough 11^4 sequences) against a reference ModelState and a fresh model',
-    'C17': 'half-open window membership on grid points; intensity scale and model-list families; input representations (masks, extra / unaligned coordinates, slices and strided views, float32) for fit_peaks and remove_peaks',
-    'C18': 'non-mutation guard on every Variable handed in; histories on two cylinders built from the same Variables; detector banks crossing the 2e7 broadcast limit through the public API (value independent of bank size)',
+    'C17': 'half-open window membership on grid points; intensity scale and model-list families; input representations (masks, extra / unaligned coordinates, slices and strided views, float32) for fit_peaks and remove_peaks; neighbour separation factors on both sides of 1/2',
+    'C18': 'non-mutation guard on every Variable handed in; histories on two cylinders built from the same Variables; detector banks crossing the 2e7 broadcast limit through the public API (value independent of bank size); a translation by 7e4 sample sizes among the rigid motions',
     'C19': 'integer offsets up to 1.7e18 (shift invariance, exact rational reference); ordered pairs / triples of unit configurations in one process vs a fresh module state; shared tolerance Variable',
     'C20': 'same number in another unit on one Material; integer / float32 wavelengths; first-order uncertainty of the attenuation law',
 }
